@@ -28,7 +28,9 @@ type upd struct {
 	Amt int64 // payment towards the peer
 }
 
-// decisions on incoming requests: 'a' accept, 'r' reject, 'd' accept after a delay
+// decisions on incoming requests: 'a' accept, 'r' reject, 'd' accept after a delay, 'c' accept
+// with a context that ends the moment the acceptance has been handed to the bus (an acceptance
+// that was sent counts: the proposer will enable the update)
 type c06prog struct {
 	// Early: the first update of a channel races with two overlapping channel openings at the
 	// responder (it is held in the responder's version-1 request cache until the opening is done)
@@ -78,6 +80,10 @@ func classify(err error) string {
 	}
 }
 
+// cancelOnAcc: per party, the cancel function of the context its handler is accepting with
+// (decision 'c'); one execution at a time, reset by c06exec.
+var cancelOnAcc [4]context.CancelFunc
+
 func decider(dec *string) func(p *Party, cur *channel.State, u client.ChannelUpdate, r *client.UpdateResponder) {
 	return func(p *Party, _ *channel.State, _ client.ChannelUpdate, r *client.UpdateResponder) {
 		d := byte('a')
@@ -91,6 +97,14 @@ func decider(dec *string) func(p *Party, cur *channel.State, u client.ChannelUpd
 			if err := r.Reject(ctx, "no"); err != nil {
 				p.HandlerErrs = append(p.HandlerErrs, "reject: "+err.Error())
 			}
+		case 'c':
+			cctx, ccancel := context.WithCancel(context.Background())
+			defer ccancel()
+			cancelOnAcc[p.Idx] = ccancel // called by the bus hook when this party publishes an update acceptance
+			if err := r.Accept(cctx); err != nil {
+				p.HandlerErrs = append(p.HandlerErrs, "accept (context ended after the acceptance was sent): "+err.Error())
+			}
+			cancelOnAcc[p.Idx] = nil
 		case 'd':
 			vsched.Sleep(100 * time.Millisecond) // a slow user: other traffic may overtake
 			fallthrough
@@ -112,6 +126,15 @@ func c06exec(t *testing.T, ssc schedrun.Scenario, o vsched.Options) (*vsched.Sch
 		w := NewWorld(2, nil, false)
 		decA, decB := pr.DecA, pr.DecB
 		w.P[0].OnUpdate, w.P[1].OnUpdate = decider(&decA), decider(&decB)
+		cancelOnAcc = [4]context.CancelFunc{}
+		w.Bus.Drop = func(e *wire.Envelope) bool {
+			if _, ok := e.Msg.(*client.ChannelUpdateAccMsg); ok {
+				if i := w.partyOf(e.Sender); i >= 0 && i < len(cancelOnAcc) && cancelOnAcc[i] != nil {
+					cancelOnAcc[i]()
+				}
+			}
+			return false
+		}
 		chans := [2][]*client.Channel{}
 		for c := 0; c < pr.Chans; c++ {
 			ca, cb, err := w.OpenLedger(0, 1, 10, 10)
@@ -482,6 +505,11 @@ func c06programs(thorough bool) []c06prog {
 			}
 		}
 	}
+	// the acceptor's context ends the moment its acceptance is on the bus
+	add(1, [][]upd{{A}}, "", "c")
+	add(1, [][]upd{{A, {0, 0, 3}}}, "", "ca")
+	add(1, [][]upd{{A, B}}, "c", "c")
+	add(1, [][]upd{{B, A}}, "c", "a")
 	// two threads of the same party, and both parties concurrently
 	add(1, [][]upd{{A}, {{0, 0, 3}}}, "", "aa")
 	add(1, [][]upd{{A}, {{0, 0, 3}}}, "", "ra")
@@ -521,7 +549,7 @@ func c06scenarios(res *report.Result) []schedrun.Scenario {
 			n += len(th)
 		}
 		b := 1
-		if n == 1 && !p.Early {
+		if n == 1 && !p.Early && !strings.Contains(p.DecA+p.DecB, "c") {
 			b = 2 // quick: two deviations on the single-update programs
 		}
 		if res.Thorough() {
